@@ -6,6 +6,7 @@ package harness
 import (
 	"bufio"
 	"fmt"
+	jp "github.com/jmespath/go-jmespath"
 	"math/big"
 	"os"
 	"path/filepath"
@@ -360,7 +361,20 @@ func predSlice(c Case) (r Result) {
 		r.class("slice.empty")
 	}
 	r.class("carrier." + carrier)
-	for _, o := range []libOut{libSearch(expr, doc), libCompileSearch(expr, doc)} {
+	// third leg: the compiled expression is kept, other expressions are compiled and searched
+	// meanwhile (whatever the parser hands out must stay the compiled expression's own), then it is searched
+	kept := libOut{}
+	kept.Panic = safely(func() {
+		c, err := jp.Compile(expr)
+		if err != nil {
+			kept.Err = err
+			return
+		}
+		kept.Compiled = true
+		unrelatedParses()
+		kept.Val, kept.Err = c.Search(doc)
+	})
+	for _, o := range []libOut{libSearch(expr, doc), libCompileSearch(expr, doc), kept} {
 		if o.Panic != nil {
 			r.Violation = "slice panicked"
 			r.Got = showOut(o)
@@ -1324,7 +1338,6 @@ func TestC11Positions(t *testing.T) {
 	st.Exhaustive["C11.positions"] = fmt.Sprintf("%d per-element constructs x arrays of 1..6, 17, 33 numbers with one string at every position (edges and middle for the large ones): %d cases, the error must surface in each", len(tmpls), n)
 	st.mu.Unlock()
 }
-
 
 // TestC11Triples: every ordered triple of the truth-value and iteration contexts around
 // three erroring seeds (errors that only get lost three constructs deep: a negation as the
